@@ -833,7 +833,7 @@ def check(ctx):
     elif not quick:
         common.leanchecker(ctx, PROPS_MODULE)
     ds = {"container": check_container(ctx, quick), "hashset": check_hashset(ctx, quick), "str": check_str(ctx, quick)}
-    ctx.samples = [gen_container(ctx.rng("sample"), 10, True)]
+    ctx.samples = [gen_container(ctx.rng("sample"), 10, True), gen_hashset(ctx.rng("sample"), 8)[:12], gen_str(ctx.rng("sample"), 10)]
     cov = {
         "evaluations": sum(d.cases for d in ds.values()),
         "distinct_nontrivial": sum(len(d.distinct) for d in ds.values()),
